@@ -15,7 +15,7 @@ META = {
         "is reported. R2: the whole-timeline pre-pass influences matching only through cost offsets (its result reaches only "
         "lot cost offsets and 30-day leg costs, never a matched quantity), and only capital-return / accumulation arms write "
         "them (C11-R1/R4). R3: tax-year membership is decided by the disposal's own date with an exact 6 April boundary in every "
-        "derivation and filter (shared with C07-R1). Does not decide the relation between report(prefix) and report(prefix + suffix). R4: the canonical sort is stable (shared with C06-R2) — with an unstable sort the arrangement of an earlier day's lines depends on the length of the whole list. R5: a summary's dividend figures are read under its own tax year (shared with C04-R6), not under whichever year follows in the stream of legs."),
+        "derivation and filter (shared with C07-R1). Does not decide the relation between report(prefix) and report(prefix + suffix). R4: the canonical sort is stable (shared with C06-R2) — with an unstable sort the arrangement of an earlier day's lines depends on the length of the whole list. R5: a summary's dividend figures are read under its own tax year (shared with C04-R6), not under whichever year follows in the stream of legs. R1 also: every write of state the 30-day producer carries from line to line is dominated by a test on the line's date (no whole-timeline flags). R4 also: the stable sort is the only reordering of the list in the canonicaliser (no reverse/rotate/swap)."),
     "trusted_base": ["C01-R3 interval analysis", "rustc MIR + resolution"],
 }
 
